@@ -165,9 +165,13 @@ class Term(ItemSequenceT[T]):
                     return tuple(_filter_items(((elem1, exp1),
                                                 (elem2, exp2))))
                 else:
+                    # elements with the same sort key which are not
+                    # convertible are ordered by their string repr, so that
+                    # the normalized form does not depend on the given order
                     items = sorted(((elem1, exp1), (elem2, exp2)),
                                    key=lambda item:
-                                   self.norm_sort_key(item[0]))
+                                   (self.norm_sort_key(item[0]),
+                                    str(item[0])))
                     return tuple(_filter_items(items))
             # third most relevant case: non-numeric + numeric element
             if isinstance(elem2, Rational) and \
@@ -187,9 +191,14 @@ class Term(ItemSequenceT[T]):
                                                        idx + 1),
                          item)
                         for idx, item in enumerate(items))
+            items_sorted = sorted(map_iter, key=sort_key)
         else:
+            # elements with the same sort key which are not convertible are
+            # ordered by their string repr, so that the normalized form does
+            # not depend on the given order
             map_iter = ((norm_sort_key(item[0]), item) for item in items)
-        items_sorted = sorted(map_iter, key=sort_key)
+            items_sorted = sorted(map_iter,
+                                  key=lambda x: (x[0], str(x[1][0])))
         res_items: ItemListT[T] = []
         num_elem: Rational = ONE
         key: int
